@@ -354,6 +354,52 @@ pub fn xz_compress(input: &[u8], kind: &ReaderKind, io: &Io) -> Run {
     run_with(input, kind, io, |mut r, w| lzma_rs::xz_compress(&mut r, w))
 }
 
+/// xz_compress over `n` copies of `byte` (never materialised) into a sink that
+/// only counts and keeps the last 64 bytes: for inputs beyond 4 GiB.
+pub struct HugeOut {
+    pub verdict: Verdict,
+    pub total: u64,
+    pub tail: Vec<u8>,
+}
+
+pub fn xz_compress_huge(byte: u8, n: u64) -> HugeOut {
+    struct TailSink {
+        total: u64,
+        tail: Vec<u8>,
+    }
+    impl std::io::Write for TailSink {
+        fn write(&mut self, b: &[u8]) -> std::io::Result<usize> {
+            self.total += b.len() as u64;
+            if b.len() >= 64 {
+                self.tail.clear();
+                self.tail.extend_from_slice(&b[b.len() - 64..]);
+            } else {
+                self.tail.extend_from_slice(b);
+                if self.tail.len() > 64 {
+                    let d = self.tail.len() - 64;
+                    self.tail.drain(..d);
+                }
+            }
+            Ok(b.len())
+        }
+        fn flush(&mut self) -> std::io::Result<()> {
+            Ok(())
+        }
+    }
+    let mut sink = TailSink { total: 0, tail: Vec::new() };
+    let res = guarded(|| {
+        use std::io::Read;
+        let mut r = std::io::BufReader::with_capacity(1 << 16, std::io::repeat(byte).take(n));
+        lzma_rs::xz_compress(&mut r, &mut sink)
+    });
+    let verdict = match res {
+        Ok(Ok(())) => Verdict::Ok,
+        Ok(Err(e)) => Verdict::Err(format!("{:?}", e)),
+        Err(p) => Verdict::Panic(p),
+    };
+    HugeOut { verdict, total: sink.total, tail: sink.tail }
+}
+
 #[derive(Clone, Copy, Debug, PartialEq, Eq, Hash, Serialize, Deserialize)]
 pub enum CompOpt {
     HeaderNone,
